@@ -2071,8 +2071,8 @@ impl SubRule {
 
         if match_begin.is_none() { // if we've got to the end of the word and we haven't began matching
             Ok((vec![], None))
-        } else if self.input.last().unwrap().kind == ParseElement::SyllBound {
-            // if we've reached the end of the word and the last state is a word boundary
+        } else if self.input.last().unwrap().kind == ParseElement::SyllBound && state_index == self.input.len() - 1 {
+            // if we've reached the end of the word, everything before the last state has matched, and the last state is a word boundary
             captures.push(MatchElement::SyllBound(word.syllables.len(), None));
             Ok((captures, None))
         } else { // No Match
